@@ -45,4 +45,9 @@ PLANS = {
              exhaustive_axes="all (d, factory, admissible index) triples for d=2..6",
              assumptions=["reference: closed-form generalised Gell-Mann basis in long double (harness/common/ref.h)",
                           "library built from /repo working tree with clang ASan+UBSan, asserts enabled"]),
+    "C17": P("c17_grid.cpp",
+             quick=[dict(mode="enum"), dict(mode="pbt", cases=2500, shards=4)],
+             thorough=[dict(mode="enum"), dict(mode="pbt", cases=60000, shards=16)],
+             exhaustive_axes="every nx in 2..130 x {linear, log, non-uniform user grid} with x at every node, node +-1 ulp and midpoint",
+             assumptions=ASSUME + ["log grids start at a >= 1e-10 (the code rejects smaller values with its own message)", "a < b; NaN arguments excluded"]),
 }
